@@ -395,6 +395,31 @@ pub fn run(tier: Tier) -> i32 {
             }
         }
     }
+    // a destination whose name is a legal path but not valid UTF-8 (Latin-1 "d\xe9j\xe0.raw"): written like any other
+    {
+        use std::os::unix::ffi::OsStrExt;
+        use std::os::unix::process::ExitStatusExt;
+        let pk: Vec<Packet> = (0..12).map(|i| gen::recognisable_framed((i % 3) as u8, gen::fee_of_link((i % 3) as u8), 16 + 16 * (i % 4), 93_000 + i as u64)).collect();
+        let bytes = stream::to_bytes(&pk);
+        let scratch = Scratch::new("c08u");
+        let inp = scratch.file("in.raw", &bytes);
+        let name = std::ffi::OsStr::from_bytes(b"d\xe9j\xe0.raw");
+        let out = std::process::Command::new(fp_harness::cli::cli_bin()).arg(&inp).args(["--filter-link", "1", "-o"]).arg(name).current_dir(&scratch.path).env("RUST_BACKTRACE", "0").output();
+        spellings += 1;
+        match out {
+            Err(e) => rep.machinery_error(format!("spawn: {e}")),
+            Ok(o) => {
+                let (want, _, _) = expected_output(&bytes, Filter::Link(1));
+                let got = std::fs::read(scratch.path.join(name)).ok();
+                let err = String::from_utf8_lossy(&o.stderr).to_string();
+                if o.status.signal().is_some() || err.contains("panicked at") {
+                    rep.violation(Violation { signature: "write:destination-spelling:crash:non-utf8-file-name".into(), description: format!("signal {:?}: {}", o.status.signal(), err.lines().find(|l| l.contains("panicked")).unwrap_or("")), replay: json!({"input_hex": hex(&bytes), "dest": "d\\xe9j\\xe0.raw"}) });
+                } else if o.status.code() == Some(0) && got.as_deref() != Some(&want[..]) {
+                    rep.violation(Violation { signature: "write:destination-spelling:accepted-but-other-result:non-utf8-file-name".into(), description: format!("the file holds {:?} bytes, the selected packets make {}", got.map(|g| g.len()), want.len()), replay: json!({"input_hex": hex(&bytes)}) });
+                }
+            }
+        }
+    }
     rep.cov("spelling_cases", json!(spellings));
     // the writer's buffer: in the tool it holds 2^20 packets, so only streams beyond a million selected packets make it
     // flush in mid-run. The real `BufferedWriter` is driven here with buffer sizes 1..=5: every sequence of up to 5
